@@ -160,6 +160,40 @@ def run_group(chk, g, seen):
                         if not chk.failures:
                             chk.fail('invented', f"{name}: with only {list(S)} supplied, {m} reads {r[1]}", data)
                         return
+                # retraction: the supplied members are deleted again and the remembered values re-evaluated - the object must now answer like
+                # one that was never supplied anything (no stale, no resurrected value)
+                # (not for the cycle-guarded pairs length/duration and the velocities: there re-evaluation is an iteration step in which the remembered
+                #  partner legitimately serves as the previous iterate, so a deleted member is re-derived from it - see DESIGN.md section 6)
+                if S and order == tuple(members) and name.startswith(('cooling', 'roll radius')):
+                    try:
+                        for m in S:
+                            tgt, attr = (obj, m) if '.' not in m else (_get(obj, m.rsplit('.', 1)[0]), m.rsplit('.', 1)[1])
+                            if attr in tgt.__dict__:
+                                delattr(tgt, attr)
+                        obj.reevaluate_cache()
+                        for sub in {m.rsplit('.', 1)[0] for m in members if '.' in m}:
+                            if _get(obj, sub) is not getattr(obj, 'roll', None) or not hasattr(type(obj), 'roll'):
+                                _get(obj, sub).reevaluate_cache()
+                    except Exception as e:      # noqa
+                        if not chk.failures:
+                            chk.fail('retract', f"{name}: deleting {list(S)} and re-evaluating raises {type(e).__name__}: {e}", data)
+                        return
+                    blank = factory({})
+                    for m in members:
+                        def rd(o):
+                            try:
+                                return ('ok', float(_get(o, m)))
+                            except AttributeError:
+                                return ('attr',)
+                            except Exception as e:      # noqa
+                                return ('exc', type(e).__name__)
+                        a, b = rd(obj), rd(blank)
+                        same = a[0] == b[0] and (a[0] != 'ok' or math.isclose(a[1], b[1], rel_tol=1e-9, abs_tol=1e-15))
+                        if not same:
+                            if not chk.failures:
+                                chk.fail('retract', f"{name}: {list(S)} supplied, everything read, {list(S)} deleted again and the cache re-evaluated: {m} now gives "
+                                         f"{a}, an object that never had them gives {b}", data)
+                            return
                 # round trip: feed the derived values to a fresh object
                 derived = {m: r[1] for m, r in res.items() if r[0] == 'ok' and m not in S}
                 for m, val in derived.items():
